@@ -53,6 +53,7 @@ type Req struct {
 }
 
 type Res struct {
+	NoPrint bool ` + "`json:\",omitempty\"`" + `
 	Misuse string ` + "`json:\",omitempty\"`" + `
 	Seq    int
 	OK     bool
@@ -130,10 +131,16 @@ func collect[U Uint](p *{{.Type}}[U], err error, req *Req, res *Res) {
 	}
 {{end}}
 	res.Shape = shapeOf(p.AST())
-	res.Sprint = p.SprintSyntaxTree()
-	var wb bytes.Buffer
-	p.WriteSyntaxTree(&wb)
-	res.Write = wb.String()
+	// (the printers convert the whole text to runes once per node; beyond tokens x runes = 1.5e9 the printed tree is not
+	// asked for: a matter of speed, and the same for a fresh and a reused parser)
+	if len(res.Toks)*res.NRunes <= 1500000000 {
+		res.Sprint = p.SprintSyntaxTree()
+		var wb bytes.Buffer
+		p.WriteSyntaxTree(&wb)
+		res.Write = wb.String()
+	} else {
+		res.NoPrint = true
+	}
 	if req.PrintRaw {
 		p.PrintSyntaxTree()
 	}
@@ -637,6 +644,7 @@ type Res struct {
 	Err    string ` + "`json:\",omitempty\"`" + `
 	ErrType string ` + "`json:\",omitempty\"`" + `
 	Sprint string ` + "`json:\",omitempty\"`" + `
+	NoPrint bool ` + "`json:\",omitempty\"`" + `
 	NRunes int
 }
 
@@ -676,9 +684,17 @@ func one(req *Req) (res Res) {
 	for _, t := range p.Tokens() {
 		res.Toks = append(res.Toks, Tk{rul3s[t.pegRule], uint64(t.begin), uint64(t.end)})
 	}
-	res.Sprint = p.SprintSyntaxTree()
+	// the printers convert the whole text to runes once per node: tokens x runes conversions. Beyond a budget the
+	// printed tree is not asked for (a matter of speed, not of the properties); the token checks still apply
+	if len(res.Toks)*res.NRunes <= printBudget {
+		res.Sprint = p.SprintSyntaxTree()
+	} else {
+		res.NoPrint = true
+	}
 	return
 }
+
+const printBudget = 1500000000
 
 func Run(reqJSON []byte) []byte {
 	var req Req
